@@ -278,6 +278,55 @@ theorem C16_pool_direct_close (ops : List POp) (k g : Nat)
   · intro c hcc; simp [closedState] at hcc
   · intro m hm; simp [stream, closedState, hm]
 
+
+/-- Concurrent use of the pool: in every state reachable by ANY interleaving of the atomic steps of
+    New (LoadOrStore … constructor running … completion), Get, Close and calls by any number of
+    goroutines, a lookup yields an open, unclosed connection or reports absence — a reservation whose
+    constructor is still running is never visible as a present-but-missing entry. -/
+theorem C16_pool_concurrent_get (c : CState) (h : GB.LTS.Reachable cstep cinit c) (n : Name) :
+    poolGet true c.s n = .absent ∨
+    ∃ g, poolGet true c.s n = .usable g ∧ c.s.connOpen g = true ∧ c.s.ctrlClosed g = false := by
+  have hi := cinv_reachable c h
+  cases hn : c.s.conns n with
+  | none => left; simp [poolGet, hn]
+  | some g =>
+    have e := hi.entry n g hn
+    cases e.2.2.2 with
+    | inl x => right; exact ⟨g, by simp [poolGet, hn, x.1], x.2.1, e.2.2.1⟩
+    | inr x => left; simp [poolGet, hn, x.1]
+
+/-- Every construction in progress completes cleanly whatever happened concurrently: if the
+    constructor succeeds the entry becomes usable, if it fails the reservation is released (the name
+    is free again) and no other entry is touched. -/
+theorem C16_pool_concurrent_finish (c : CState) (h : GB.LTS.Reachable cstep cinit c) (n : Name) (g : Nat)
+    (hp : (n, g) ∈ c.pending) :
+    (∃ c1, cstep c (.finish n g true) = some c1 ∧ poolGet true c1.s n = .usable g) ∧
+    (∃ c0, cstep c (.finish n g false) = some c0 ∧ c0.s.conns n = none ∧
+       ∀ m, m ≠ n → c0.s.conns m = c.s.conns m) := by
+  have hi := cinv_reachable c h
+  have hc := hi.pend n g hp
+  constructor
+  · refine ⟨_, by simp [cstep, hp]; rfl, ?_⟩
+    simp [poolFinish, poolGet, hc]
+  · refine ⟨_, by simp [cstep, hp]; rfl, ?_, ?_⟩
+    · simp [poolFinish, hc]
+    · intro m hm; simp [poolFinish, hc, hm]
+
+/-- Close of a handed-out controller that has not been closed is never a panic and deletes exactly its
+    own entry, under every interleaving (the entry under its name is always the controller itself). -/
+theorem C16_pool_concurrent_close (c : CState) (h : GB.LTS.Reachable cstep cinit c) (g : Nat)
+    (hi : g ∈ c.s.issued) (hc : c.s.ctrlClosed g = false) :
+    c.s.conns (c.s.ctrlTarget g) = some g ∧
+    ∃ s', ctrlClose c.s g = some s' ∧ cstep c (.close g) = some { c with s := s' } ∧
+      s'.conns (c.s.ctrlTarget g) = none ∧ s'.connOpen g = false ∧
+      ∀ m, m ≠ c.s.ctrlTarget g → s'.conns m = c.s.conns m := by
+  have hinv := cinv_reachable c h
+  have i := hinv.issuedOk g hi
+  have own := hinv.openIn g (i.2.2 hc)
+  refine ⟨own, ?_⟩
+  simp [cstep, hi, ctrlClose, hc, i.2.1]
+  intro m hm; simp [hm]
+
 /-- D17 on the ORIGINAL pool code (negative witness): a failed New poisons the name. -/
 theorem C16_D17_original_pool_fails :
     (runP false init [.new 0 false, .new 0 true, .get 0]).2 =
@@ -311,3 +360,5 @@ example : (afterP true [.new 0 true, .get 0, .call 0]).ctrlClosed 0 = false := b
 example : (runP true init [.new 0 false, .new 0 true, .get 0, .call 0, .close 0, .stream 0, .close 0, .new 0 true]).2 =
     [.add .conn (some .absent), .add .ok (some .absent), .get (.usable 1), .streamOk, .closed, .unavailable, .panic,
      .add .ok (some .absent)] := by decide
+example : GB.LTS.run cstep cinit [.reserve 0, .get 0, .reserve 0, .finish 0 0 false, .reserve 0, .finish 0 1 true, .get 0, .close 1]
+    ≠ none := by decide
